@@ -1,7 +1,7 @@
 """C13 — decided on the scheduler LTS (see tools/schedprops.py, coq/Conc/Sched*.v)."""
 import schedprops, schedgen
 ID = "C13"
-COQ_TARGETS = schedprops.SCHED_TARGETS + ["Properties_SchedMig.vo", "Extract_Sched.vo"]
+COQ_TARGETS = schedprops.SCHED_TARGETS + ["Properties_SchedMig.vo", "Properties_MigReq.vo", "Extract_Sched.vo"]
 DRIVERS = ["sched"]
 
 
@@ -13,7 +13,7 @@ FAMS = [schedgen.gen_migrate, gen_migrate_ss, schedgen.gen_mig_switch, schedgen.
 NAME_RE = r"^C13_"
 MANIFEST = {
     "text": "Theorems (Coq, every number of units/pools, every interleaving of the scheduler LTS whose labels are the ABT_VERIF hook "
-            "records): a push always goes to the unit's associated pool and the unit was in no pool before, a queued unit is never in the middle of a migration (so the pool it is popped from is the pool it was pushed to); the request bit is set only after a target was stored, the handler moves the unit to exactly the stored target, calls the callback only between the pool change and the clearing of the request (Properties_SchedMig.v). The LTS admits the loss of a request issued while another is being handled (C13_second_request_lost_refuted: finding F6, repaired in /repo by a re-check the LTS does not model); that no acknowledged request is lost is therefore checked by the gen_f6 scenario and the monitors (acknowledged => target stored inside the call; final pool = last acknowledged target; callback count), not by a theorem. Tie: generated scenarios run on the real runtime (1-4 streams, FIFO/FIFO_WAIT/RANDWS pools, all predefined "
+            "records): a push always goes to the unit's associated pool and the unit was in no pool before, a queued unit is never in the middle of a migration (so the pool it is popped from is the pool it was pushed to); the request bit is set only after a target was stored, the handler moves the unit to exactly the stored target, calls the callback only between the pool change and the clearing of the request (Properties_SchedMig.v). The LTS admits the loss of a request issued while another is being handled (C13_second_request_lost_refuted: finding F6, repaired in /repo by a re-check the LTS does not model). The request protocol of one unit WITH that re-check is a separate hand-written model (Conc/MigReq.v: any number of requesters x the handler's load/move/clear/re-load/re-set): C13_no_lost_request proves that whenever nothing is in flight the unit is in the pool of the most recent request, C13_no_recheck_refuted that the handler without the re-check is not (Properties_MigReq.v). The two re-check steps have no hook record; they are tied to the code by outcome: the gen_f6 scenarios (with delay sweeps inside the handler) and the monitors (acknowledged => target stored inside the call; final pool = last acknowledged target; callback count). Tie: generated scenarios run on the real runtime (1-4 streams, FIFO/FIFO_WAIT/RANDWS pools, all predefined "
             "schedulers, ULTs/tasklets/external threads); every recorded atomic action must be enabled in the model with the recorded "
             "values (state loads, request bits, num_blocked, queue emptiness); API-level monitors (entry counts, arguments, return codes, "
             "pool sizes at quiescence, join/xstream-join postconditions, watchdog) run on every execution.",
@@ -23,7 +23,7 @@ MANIFEST = {
 
 
 def run(tier, seed, replay):
-    return schedprops.run(ID, NAME_RE, FAMS, tier, seed, replay, files=schedprops.SCHED_FILES + ["Properties_SchedMig.v"],
+    return schedprops.run(ID, NAME_RE, FAMS, tier, seed, replay, files=schedprops.SCHED_FILES + ["Properties_SchedMig.v", "Properties_MigReq.v"],
                           known_patterns={"F6": ("# F6", r"^F6:")},
                           # delay before the hooked action that follows a MIG_CB / SET_POOL record: holds open the
                           # handler's unhooked reads between the callback and the clearing of the request bit
